@@ -334,6 +334,41 @@ namespace plan
       bplanted[v] = (m.bools.size() % 3) != 0;
       decl("bool " + v + ";");
     }
+    else if (n == "xorn")
+    { // exactly one of 4..7 Boolean variables (declared here when there are not enough): `b0 ^ b3 ^ b4 ^ b5 ^ b6;`
+      size_t k = static_cast<size_t>(modn(op.arg(0), 4)) + 4;
+      while (top.bools.size() < k)
+      {
+        std::string v = "b" + std::to_string(m.bools.size());
+        m.bools.push_back(v);
+        top.bools.push_back({v});
+        bplanted[v] = false;
+        decl("bool " + v + ";");
+      }
+      std::vector<size_t> idx(top.bools.size());
+      for (size_t i = 0; i < idx.size(); ++i)
+        idx[i] = i;
+      sim::Rng r(static_cast<uint64_t>(op.arg(1)) * 2654435761ULL + 17);
+      for (size_t i = idx.size(); i > 1; --i)
+        std::swap(idx[i - 1], idx[r.below(i)]);
+      auto b = std::make_shared<B>();
+      b->k = B::XOR;
+      size_t planted_true = 0;
+      for (size_t i = 0; i < k; ++i)
+      {
+        auto s = std::make_shared<B>();
+        s->k = B::BVAR;
+        s->p = top.bools[idx[i]];
+        planted_true += bplanted[ptext(s->p)] ? 1 : 0;
+        b->sub.push_back(s);
+      }
+      if (planted_true != 1)
+      { // keep the hidden assignment a solution: exactly the first operand is true in it
+        for (size_t i = 0; i < k; ++i)
+          bplanted[ptext(b->sub[i]->p)] = i == 0;
+      }
+      assert_stmt(b);
+    }
     else if (n == "class")
     {
       if (m.unit != 0 || m.classes.size() >= 4)
